@@ -536,6 +536,115 @@ pub fn families(focus: Focus) -> Vec<Box<dyn Family>> {
     ));
     if focus != Focus::C03 {
         v.push(family(
+            "many_hunks",
+            "diffs with MORE THAN 65 536 raw callbacks: 33 000..45 000 unique items, each followed in new by an inserted separator (one hunk per item), plus slidable edits at the end ([1,0] -> [2,1,0,0], [5,5] -> [5,5,5], [7,8,7] -> [7,8,7,8,7]) whose items also occur in a common trailer so that they are no Patience anchors; Patience through capture_diff(_slices) and the OddStr line diff",
+            false,
+            1,
+            move |cfg| if cfg.tiny { 1 } else { cfg.tier.pick(3, 9) },
+            move |idx, cfg, out| {
+                let mut rng = Rng::for_case(cfg.seed, "captured.many_hunks", idx);
+                let n = if cfg.tiny { 6 } else { rng.range(33_000, 45_000) };
+                let mut a: Vec<u32> = Vec::with_capacity(n + 40);
+                let mut b: Vec<u32> = Vec::with_capacity(2 * n + 40);
+                for i in 0..n as u32 {
+                    a.push(1000 + i);
+                    b.push(1000 + i);
+                    b.push(if idx % 3 == 0 { 999 } else { 900 + i % 7 });
+                }
+                for (ta, tb) in [(&[1u32, 0][..], &[2u32, 1, 0, 0][..]), (&[5, 5][..], &[5, 5, 5][..]), (&[7, 8, 7][..], &[7, 8, 7, 8, 7][..])] {
+                    a.extend_from_slice(ta);
+                    b.extend_from_slice(tb);
+                    a.push(500_000 + a.len() as u32);
+                    b.push(*a.last().unwrap());
+                }
+                let trailer = [1u32, 0, 2, 5, 7, 8, 1, 0];
+                a.extend_from_slice(&trailer);
+                b.extend_from_slice(&trailer);
+                out.sample(|| format!("alg=patience N={} M={} ({} one-item hunks + slidable edits)", a.len(), b.len(), n));
+                out.count("many_hunk_cases");
+                let entry = [1u8, 0, 3][(idx % 3) as usize];
+                captured_case(focus, cfg, Algorithm::Patience, &a, 0..a.len(), &b, 0..b.len(), entry, false, out);
+            },
+        ));
+    }
+    if focus == Focus::C09 {
+        v.push(family(
+            "reentrant_hooks",
+            "a user hook below Compact that itself calls capture_diff_slices from inside its callbacks (a diff started while another diff's compaction stage is replaying its ops on the same thread): the nested result must be in normal form and equal to the same call made on its own; seeded random outer and inner pairs x 3 algorithms",
+            false,
+            8,
+            move |cfg| cfg.n(3_000, 60_000),
+            move |idx, cfg, out| {
+                let mut rng = Rng::for_case(cfg.seed, "captured.reentrant", idx);
+                let (a, b) = gen::rand_pair(&mut rng, if cfg.tiny { 6 } else { 30 });
+                let (ia, ib) = gen::rand_pair(&mut rng, if cfg.tiny { 6 } else { 14 });
+                let alg = ALGS[rng.below(3)];
+                let alg_in = ALGS[rng.below(3)];
+                out.sample(|| format!("outer alg={} old={} new={}; inner alg={} old={} new={}", alg_name(alg), fmt_seq(&a), fmt_seq(&b), alg_name(alg_in), fmt_seq(&ia), fmt_seq(&ib)));
+                struct Nest<'x> {
+                    alg: Algorithm,
+                    a: &'x [u32],
+                    b: &'x [u32],
+                    results: Vec<Vec<DiffOp>>,
+                }
+                impl<'x> Nest<'x> {
+                    fn go(&mut self) {
+                        if self.results.len() < 4 {
+                            self.results.push(capture_diff_slices(self.alg, self.a, self.b));
+                        }
+                    }
+                }
+                impl<'x> similar::algorithms::DiffHook for Nest<'x> {
+                    type Error = ();
+                    fn equal(&mut self, _: usize, _: usize, _: usize) -> Result<(), ()> {
+                        self.go();
+                        Ok(())
+                    }
+                    fn delete(&mut self, _: usize, _: usize, _: usize) -> Result<(), ()> {
+                        self.go();
+                        Ok(())
+                    }
+                    fn insert(&mut self, _: usize, _: usize, _: usize) -> Result<(), ()> {
+                        self.go();
+                        Ok(())
+                    }
+                    fn replace(&mut self, _: usize, _: usize, _: usize, _: usize) -> Result<(), ()> {
+                        self.go();
+                        Ok(())
+                    }
+                    fn finish(&mut self) -> Result<(), ()> {
+                        self.go();
+                        Ok(())
+                    }
+                }
+                out.eval();
+                let alone = guard(|| capture_diff_slices(alg_in, &ia, &ib));
+                let nested = guard(|| {
+                    let mut d = similar::algorithms::Compact::new(similar::algorithms::Replace::new(Nest { alg: alg_in, a: &ia, b: &ib, results: Vec::new() }), &a[..], &b[..]);
+                    similar::algorithms::diff_slices(alg, &mut d, &a, &b).unwrap();
+                    d.into_inner().into_inner().results
+                });
+                match (alone, nested) {
+                    (Err(p), _) | (_, Err(p)) => out.violation("panic", format!("nested diff panicked: {} | inner alg={} old={} new={}", p, alg_name(alg_in), fmt_seq(&ia), fmt_seq(&ib))),
+                    (Ok(alone), Ok(results)) => {
+                        out.count_n("nested_diffs_observed", results.len() as u64);
+                        if !results.is_empty() && !ia.is_empty() && !ib.is_empty() && ia != ib {
+                            out.nontrivial(&("C09.reentrant", alg_name(alg_in), &ia, &ib, &a, &b));
+                        }
+                        let eq = |o: usize, n: usize| ia[o] == ib[n];
+                        for (k, ops) in results.iter().enumerate() {
+                            let v = check_ops(ops, &eq, 0..ia.len(), 0..ib.len());
+                            for (code, msg) in &v.normal {
+                                out.violation(code, format!("{} | capture_diff_slices called from inside hook callback #{} of an outer diff (outer alg={} old={} new={}) | inner alg={} old={} new={} | ops={} | the same call on its own gives {}", msg, k, alg_name(alg), fmt_seq(&a), fmt_seq(&b), alg_name(alg_in), fmt_seq(&ia), fmt_seq(&ib), fmt_ops(ops), fmt_ops(&alone)));
+                            }
+                        }
+                    }
+                }
+            },
+        ));
+    }
+    if focus != Focus::C03 {
+        v.push(family(
             "reversed_empty_ranges",
             "ranges given with start > end (both ends in bounds) are EMPTY ranges positioned at `start`: every pair over {0,1} up to length 4 x every reversed range on one or both sides x 3 algorithms through capture_diff / capture_diff_deadline (none, never expiring, expired at check #0): the ops must consume exactly the other side's range, carry `start` as the position on the empty side, and be in normal form",
             true,
@@ -628,6 +737,45 @@ pub fn families(focus: Focus) -> Vec<Box<dyn Family>> {
         ));
     }
     if focus == Focus::C03 {
+        v.push(family(
+            "huge_distance",
+            "two UNRELATED random sequences over 16 symbols of 9000..14000 items each (one case 20000 x 20000) (edit distance above 8192 / 16384 in ONE box: thousands of search rounds without the forward and backward paths meeting) through capture_diff_slices with Myers, no deadline: cost == N+M-2*LCS by the DP oracle (2 x 10^8 cells)",
+            false,
+            1,
+            move |cfg| if cfg.tiny { 1 } else { cfg.tier.pick(3, 10) },
+            move |idx, cfg, out| {
+                let mut rng = Rng::for_case(cfg.seed, "captured.huge_distance", idx);
+                // case 0: 20000 x 20000 (edit distance well above 16384)
+                let (n, m) = if cfg.tiny { (12, 10) } else if idx == 0 { (20_000, 20_000) } else { (rng.range(9000, 14_001), rng.range(9000, 14_001)) };
+                let a: Vec<u32> = (0..n).map(|_| rng.below(16) as u32).collect();
+                let b: Vec<u32> = (0..m).map(|_| rng.below(16) as u32).collect();
+                out.sample(|| format!("alg=myers N={} M={} random over 16 symbols", n, m));
+                out.nontrivial(&("C03.huge_distance", n, m, idx));
+                out.count("huge_distance_cases");
+                out.eval();
+                let r = guard(|| capture_diff_slices(Algorithm::Myers, &a, &b));
+                match r {
+                    Err(p) => out.violation("panic", format!("capture panicked: {} | N={} M={}", p, n, m)),
+                    Ok(ops) => {
+                        let eq = |o: usize, nn: usize| a[o] == b[nn];
+                        let v = check_ops(&ops, &eq, 0..n, 0..m);
+                        if !v.script.is_empty() {
+                            out.violation(v.script[0].0, format!("(cost undefined) {} | alg=myers N={} M={}", v.script[0].1, n, m));
+                            return;
+                        }
+                        let l = lcs_len(&a[..], &b[..]);
+                        let opt = n + m - 2 * l;
+                        out.max("edit_distance_in_one_box", opt as f64);
+                        if v.deleted + v.inserted != opt {
+                            out.violation(
+                                "minimal.captured_cost",
+                                format!("captured ops delete {} + insert {} items but the optimum is {} (LCS {}) | alg=myers entry=capture_diff_slices N={} M={} random over 16 symbols, no deadline | old={} new={}", v.deleted, v.inserted, opt, l, n, m, fmt_seq(&a), fmt_seq(&b)),
+                            );
+                        }
+                    }
+                }
+            },
+        ));
         v.push(family(
             "deadline_free_text_apis",
             "the text entry points that take NO deadline (utils::diff_chars / diff_words / diff_lines / diff_slices, TextDiff::from_chars / from_words / from_lines / from_slices, TextDiff::configure() without deadline or timeout) run under a virtual clock on which any deadline would already have expired (Fuel(0)): time cannot matter to them, so their Myers and LCS results must still be minimal (DP optimum over the tokens); seeded random token sequences up to 40 tokens",
@@ -878,6 +1026,12 @@ fn capture_once(
             similar::algorithms::diff_deadline(alg, &mut d, a, or.clone(), b, nr.clone(), deadline).unwrap();
             d.into_inner().into_ops()
         }
+        7 => {
+            // Replace in front of the finish-suppressing wrapper (as when several sections are diffed into one capture)
+            let mut d = similar::algorithms::Replace::new(similar::algorithms::NoFinishHook::new(similar::algorithms::Capture::new()));
+            similar::algorithms::diff_deadline(alg, &mut d, a, or.clone(), b, nr.clone(), deadline).unwrap();
+            d.into_inner().into_inner().into_ops()
+        }
         3 => Vec::new(), // run below
         4 => {
             // the slice entry points of the algorithms module, driving the capture stack directly
@@ -1039,7 +1193,7 @@ fn captured_case(
     if focus == Focus::C02 || focus == Focus::C11 {
         // (a bare Capture records the raw calls, whose carried positions may legitimately sit anywhere
         // inside their run of changes - C01 - so exact positions are only demanded behind Replace)
-        let stack = if focus == Focus::C11 { 6 } else { 5 + ((n + m + or.start) % 2) as u8 };
+        let stack = if focus == Focus::C11 { 6 + ((n + m + or.start) % 2) as u8 } else { 5 + ((n + m + or.start) % 3) as u8 };
         out.eval();
         let r = capture_once(alg, a, or.clone(), b, nr.clone(), stack, None, far);
         judge(focus, cfg, alg, a, &or, b, &nr, stack, None, &r, out);
@@ -1069,6 +1223,7 @@ fn ctx(alg: Algorithm, a: &[u32], or: &Range<usize>, b: &[u32], nr: &Range<usize
             4 => "algorithms::diff_slices(_deadline) into Compact<Replace<Capture>>",
             5 => "algorithms::diff_deadline into a bare Capture hook",
             6 => "algorithms::diff_deadline into Replace<Capture>",
+            7 => "algorithms::diff_deadline into Replace<NoFinishHook<Capture>>",
             3 => "TextDiff::configure().diff_lines over a user-defined DiffableStr (OddStr: case-insensitive Eq, U+2028 line ends, char-indexed)",
             _ => "TextDiff::configure().diff_slices",
         },
